@@ -20,6 +20,8 @@ import (
 	"metacontroller/pkg/apis/metacontroller/v1alpha1"
 	"metacontroller/pkg/cache"
 	"metacontroller/pkg/controller/common"
+	"metacontroller/pkg/logging"
+	"metacontroller/pkg/zzverif/logsink"
 	rt "metacontroller/pkg/zzverif/rt"
 )
 
@@ -151,6 +153,14 @@ func verifNow() time.Time {
 // ETag header, every body outcome, strict / loose / default mode, plain or
 // ETag executor with the cache entry absent / present / expired.
 func VerifC19_StatusGate() {
+	// the branches that log request and response bodies at verbosity 6 are code
+	// of the transport too
+	if rt.Bool("log-verbosity-6") {
+		rt.Cover("verbose")
+		saved := logging.Logger
+		defer func() { logging.Logger = saved }()
+		logging.Logger = logsink.Verbose()
+	}
 	etagMode := rt.Bool("etag-mode")
 	mode, strict := verifMode(rt.Choice("unmarshal-mode", 3))
 
